@@ -81,12 +81,26 @@ HandleC(cfg, st, tm, ev, d, now, inited, cflag) ==
 
 Handle(cfg, st, tm, ev, d, now, inited) == HandleC(cfg, st, tm, ev, d, now, inited, FALSE)
 
+(* ... and the output events of the restored state come back to the FSM as event fb (0 = *)
+(* no feedback): _restore_state() is not an event(), nothing refuses that event; it is   *)
+(* handled as any other event of the restored state - the restored timer is the pending  *)
+(* one and is cancelled if the state is left.  A refused / failing feedback event is the *)
+(* sender's business (state unchanged); only a fatal result makes the start fail         *)
+RestoreFb(cfg, s, due, fb, now) ==
+    LET r == Restore(cfg, s, due) IN
+    IF fb = 0 THEN r
+    ELSE LET h == HandleC(cfg, r.st, r.tm, fb, ABSENTV, now, TRUE, FALSE)
+         IN  IF h.ret = "error" THEN h ELSE Res("true", h.st, h.tm)
+
 (* the timer tm expires: its event is delivered without data; whatever happens, that    *)
 (* timer is gone                                                                         *)
 Expire(cfg, st, tm, now) == Handle(cfg, st, NoTimer, tm.ev, ABSENTV, now, TRUE)
 
 (* ------------------------ implementation shaped part ------------------------ *)
-CONSTANTS CancelOnExit, FiredTimerCleared
+CONSTANTS CancelOnExit, FiredTimerCleared,
+          RestoreTimerFirst    \* TRUE = the code: _restore_state() starts the timer BEFORE it assigns the
+                               \* output (and thereby sends the output events); FALSE = the deviation
+                               \* "timer started at the very end"
 
 (* world = [st, handles (scheduled, not cancelled: set of [id, due, ev]), active (id of *)
 (* the handle _active_timer refers to, 0 = None; a fired handle may still be referred   *)
@@ -120,6 +134,19 @@ IHandleC(cfg, w, ev, d, now, inited, cflag) ==
     ELSE IEnter(cfg, IF CancelOnExit THEN StopTimer(w) ELSE w, Target(cfg, ev, w.st), d, now, inited, 0, cflag)
 
 IHandle(cfg, w, ev, d, now, inited) == IHandleC(cfg, w, ev, d, now, inited, FALSE)
+
+(* _restore_state() with the output events coming back as event fb *)
+IRestore(cfg, w, s, due, fb, now) ==
+    LET timed == cfg.tev[s] # 0 /\ due >= 0
+        WithTimer(x) == IF timed THEN World(x.st, x.hs \cup {[id |-> x.nid, due |-> due, ev |-> cfg.tev[s]]},
+                                            x.nid, x.nid + 1, x.ret)
+                        ELSE x
+        Fb(x) == IF fb = 0 THEN x
+                 ELSE LET y == IHandleC(cfg, x, fb, ABSENTV, now, TRUE, FALSE)
+                      IN  IF y.ret = "error" THEN y ELSE World(y.st, y.hs, y.act, y.nid, "true")
+        w0 == World(s, w.hs, w.act, w.nid, "true")
+    IN  IF RestoreTimerFirst THEN Fb(WithTimer(w0))
+        ELSE LET y == Fb(w0) IN IF y.ret = "error" THEN y ELSE WithTimer(y)
 
 (* the loop runs handle h (removing it from its heap) *)
 IFire(cfg, w, h, now) ==
